@@ -308,6 +308,15 @@ Section Guards.
        | None => false
        end.
 
+  (* an attribute map (xs:anyAttribute, `dict[str, str]`, slice S5 partial): the attributes no declared
+     field claims, by qualified name, in the order they are reported *)
+  Definition wf_anyattr (v : xvar) : bool :=
+    v_is KAttributes v && var_common v && negb (v_nillable v) && no_wrapper v
+    && match v_clazz v with None => true | Some _ => false end
+    && match v_factory v with None => true | Some _ => false end
+    && match v_tokens_factory v with None => true | Some _ => false end
+    && match v_default v with DFactoryDict => true | _ => false end.
+
   Definition wf_text (v : xvar) : bool :=
     v_is KText v && var_common v && negb (v_nillable v) && no_wrapper v
     && match v_clazz v with None => true | Some _ => false end
@@ -429,7 +438,7 @@ Section Guards.
   Definition wf_class (m : xmeta) : bool :=
     match m_choices m with [] => true | _ => false end
     && match m_wildcards m with [] => true | _ => false end
-    && match m_any_attributes m with [] => true | _ => false end
+    && match m_any_attributes m with [] => true | [av] => wf_anyattr av | _ => false end
     (* the wrapper table knows every wrapper element, and no element field is named like a wrapper *)
     && forallb (fun e => negb (match assoc (fst e) (m_wrappers m) with Some _ => true | None => false end)
                          && forallb (fun v => match v_wrapper_qname v with
@@ -507,6 +516,22 @@ Section Guards.
     | DFactoryDict => VMap []
     end.
 
+  (* the value of an attribute map: distinct keys that the namespace constraint of the field admits,
+     that no declared attribute of the class claims and that are not the parser's own xsi:nil / xsi:type;
+     values the parser takes literally (ParserUtils.parse_any_attribute resolves `prefix:local` values
+     through the prefix map in scope: values without a colon are outside that rule) *)
+  Definition map_value_ok (s : str) : bool := ok (PStr s) && negb (existsb (N.eqb 58) s).
+  Definition fits_map (m : xmeta) (v : xvar) (x : value) : bool :=
+    match x with
+    | VMap mm =>
+        nodup_by str_eqb (map fst mm)
+        && forallb (fun kv => match_namespace v (fst kv)
+                              && match assoc (fst kv) (m_attributes m) with None => true | Some _ => false end
+                              && negb (reserved_name (fst kv))
+                              && map_value_ok (snd kv)) mm
+    | _ => false
+    end.
+
   (* an attribute equal to its default is omitted under ignore_default_attributes: nothing
      to check (the default comes back); a None is only representable when the default is None *)
   Definition fits_attr (v : xvar) (x : value) : bool :=
@@ -568,7 +593,9 @@ Section Guards.
        | Some mk, Some mkd =>
            match m_target_qname mk with
            | Some ((_ :: _) as t) =>
-               negb (str_eqb t (v_qname v))
+               (* an attribute map of the subclass would capture the xsi:type attribute (finding C01-F2) *)
+               match find_any_attributes mk XSI_TYPE with None => true | Some _ => false end
+               && negb (str_eqb t (v_qname v))
                && negb (ostr_eqb (m_target_qname mkd) (Some t))
                && match sub_lookup kd t with Some k' => N.eqb k' k | None => false end
                && match c_from_qname c t with None => true | Some _ => false end
@@ -670,10 +697,16 @@ Section Guards.
                && forallb (fun e => fits_attr (snd e) (field_of fs (snd e))) (m_attributes m)
                && forallb (fun e => forallb (fun v => fits_elem (fits k) v (field_of fs v)) (snd e)) (m_elements m)
                && match m_text m with Some t => fits_text t (field_of fs t) | None => true end
+               && match m_any_attributes m with [av] => fits_map m av (field_of fs av) | _ => true end
            end
     | _, _ => false
     end.
 End Guards.
+
+(* no class of the fragment has an attribute map: the hypothesis of the theorems that speak about EVERY
+   attribute order (a map comes back in the order the attributes were reported) *)
+Definition nomaps_u (u : universe) : bool :=
+  forallb (fun km => negb (wf_class (snd km)) || match m_any_attributes (snd km) with [] => true | _ => false end) (u_metas u).
 
 (* no QName value anywhere in the instance (the canonical reader stream `pump` and the text-level
    theorems are stated for these: a QName needs a prefix binding) *)
